@@ -762,7 +762,7 @@ func runC07(c *mon.Ctx) {
 			c.Require("shape-applied:" + name)
 		}
 	}
-	c.Require("layouter:substitute-beyond-the-last-glyph", "layouter:tied-language-systems", "history-with-budget-exhaustion-followed-by-further-calls",
+	c.Require("layouter:same-text-again-after-the-result-was-edited", "layouter:substitute-beyond-the-last-glyph", "layouter:tied-language-systems", "history-with-budget-exhaustion-followed-by-further-calls",
 		"delivered-by-reader:filtering-set-oob", "delivered-by-reader:empty-replacement:gsub2.1",
 		"delivered-by-reader:recursive-lookups", "delivered-by-reader:nesting-depth>=64",
 		"mutated:apply-calls", "mutated:1-mutations-accepted", "mutated:4-mutations-accepted", "layouter:layout-calls",
